@@ -53,6 +53,10 @@ def run(tier, seed, replay=None):
     nexp = len(cases)
     ck.extra["tlc_exported_matrices"] = nexp
     cases += drv.gen_random(rng, 1200 if tier == "quick" else 12000)
+    from vlib import corpus
+    rc = corpus.dlx_cases(corpus.capture(["tests/solvors/test_dlx.py", "tests/examples/test_puzzles.py"] if tier == "thorough" else ["tests/solvors/test_dlx.py"]), drv.CALLS)
+    ck.extra["inputs_recorded_from_repository_tests"] = len(rc)
+    cases += rc
     trs = _fix(run_tasks("dlx", "run_dlx", cases, timeout=60), cases)
     vs = ck.validate(DIR, "DlxTrace", trs, "solve_exact_cover under 7 call configurations per input")
     # the exported expectation and the trace spec's own enumeration must agree (machinery self-check)
